@@ -542,9 +542,11 @@ class Glob(Generic[AnyStr]):
 
         # A single positive pattern will not find multiples of the same file
         # disable unique mode so that we won't waste time or memory computing unique returns.
+        # This only holds if the pattern has no more than one `globstar`, two of them can split a path in several ways.
         if (
             not force_negate and
             len(self.pattern) <= 1 and
+            sum(1 for p in (self.pattern[0] if self.pattern else []) if p.is_globstar) <= 1 and
             not self.flags & NODOTDIR and
             not self.nounique and
             not (self.pathlib and self.scandotdir)
